@@ -1203,10 +1203,32 @@ fn main() {
             }
             let seed: u64 = std::env::var("VERIF_SEED").ok().and_then(|s| s.parse().ok()).unwrap_or(1);
             let threads = std::thread::available_parallelism().map(|n| n.get()).unwrap_or(8).min(16);
-            let (agg, fails, wall) = run_engine(prop, seed, scen, sched, threads);
             let pid = format!("C{prop:02}");
             let mut vios = Vec::new();
             let mut seen = HashSet::new();
+            // replay tier: committed (scenario, schedule seed) pairs of this property
+            let mut replays_run = 0u32;
+            if let Ok(rd) = std::fs::read_dir(format!("{dir}/replays/regress")) {
+                let mut files: Vec<_> = rd.flatten().map(|e| e.path()).filter(|p| p.extension().map_or(false, |e| e == "json")).collect();
+                files.sort();
+                for f in files {
+                    let Ok(txt) = std::fs::read_to_string(&f) else { continue };
+                    let Ok(v) = serde_json::from_str::<Value>(&txt) else { continue };
+                    if v["engine"].as_str() != Some("E2") || v["property"].as_str() != Some(pid.as_str()) {
+                        continue;
+                    }
+                    let Ok(sc) = serde_json::from_value::<Scenario>(v["scenario"].clone()) else { continue };
+                    let ss = v["schedule_seed"].as_u64().unwrap_or(0);
+                    replays_run += 1;
+                    let (vs, _, _) = run_one(&sc, ss);
+                    if let Some((_, sig, msg)) = vs.iter().find(|(p, _, _)| *p == prop || *p == 0) {
+                        if seen.insert(sig.clone()) {
+                            vios.push(json!({"signature": sig, "message": msg, "replay": f.display().to_string(), "found_for": pid}));
+                        }
+                    }
+                }
+            }
+            let (agg, fails, wall) = run_engine(prop, seed, scen, sched, threads);
             for f in &fails {
                 if !seen.insert(f.sig.clone()) {
                     continue;
@@ -1237,6 +1259,7 @@ fn main() {
                 "preemptions_inside_crate": agg.preemptions,
                 "scheduling_points_inside_crate": agg.switches, "waker_vtable_calls_off_thread": agg.vt_offthread,
                 "polls": agg.polls, "inconclusive_executions": agg.inconclusive, "subjects": agg.subjects,
+                "regression_replays_run": replays_run,
                 "samples": agg.samples, "violations": vios, "wall_s": wall,
             });
             if let Some(o) = out {
